@@ -211,6 +211,7 @@ def jobs(tier, seed):
             b = seed % blocks
             lo, hi = size * b // blocks, size * (b + 1) // blocks
             js.append(Job(f"n6_layered_{k}arcs_caps12_block{b}of{blocks}", hi - lo, _layered_chunk, (k, lo), describe="rotating block (VERIF_SEED) of the layered 6-node networks with capacities {1,2}"))
+    js.append(Job("large_closed_form", len(large_networks()) * 2, _large_chunk, None, chunk=1, describe="70 disjoint paths, a chain of 40 nodes with back arcs, complete and staircase bipartite unit networks (6x6, 12x12): maximum flow known in closed form, both adjacency orders"))
     js.append(Job("n9_three_stages_232_unit", 2 ** len(ST232) * 2, _stage232_chunk, None, describe="9 nodes: source, stages of 2/3/2 nodes, sink; every subset of the 16 unit arcs, both adjacency orders"))
     tsize = 3**9 * 64
     if tier == "thorough":
@@ -324,6 +325,70 @@ def _transport33_chunk(params, lo, hi):
     return r
 
 
+def large_networks():
+    """larger networks whose maximum flow is known in closed form: (name, n, arcs, source, sink, value)"""
+    out = []
+    k = 70
+    arcs = []
+    val = 0
+    for i in range(k):
+        a, b = 1 + 2 * i, 2 + 2 * i
+        c1, c2, c3 = 1 + i % 3, 1 + (i * 2) % 4, 1 + (i * 5) % 3
+        arcs += [(0, a, c1), (a, b, c2), (b, 2 * k + 1, c3)]
+        val += min(c1, c2, c3)
+    out.append((f"{k}_disjoint_paths", 2 * k + 2, arcs, 0, 2 * k + 1, val))
+    n = 40
+    caps = [3 + (i * 7) % 5 for i in range(n - 1)]
+    out.append(("chain_40", n, [(i, i + 1, caps[i]) for i in range(n - 1)] + [(i + 1, i, 9) for i in range(n - 1)], 0, n - 1, min(caps)))
+    for m in (6, 12):
+        arcs = [(0, 1 + i, 1) for i in range(m)] + [(1 + i, 1 + m + j, 1) for i in range(m) for j in range(m)] + [(1 + m + j, 2 * m + 1, 1) for j in range(m)]
+        out.append((f"complete_bipartite_{m}x{m}_unit", 2 * m + 2, arcs, 0, 2 * m + 1, m))
+        # only a perfect matching along the anti-diagonal plus forward arcs that greedy augmentation takes first
+        arcs = [(0, 1 + i, 1) for i in range(m)] + [(1 + i, 1 + m + j, 1) for i in range(m) for j in range(m) if j <= m - 1 - i] + [(1 + m + j, 2 * m + 1, 1) for j in range(m)]
+        out.append((f"staircase_bipartite_{m}x{m}_unit", 2 * m + 2, arcs, 0, 2 * m + 1, m))
+    return out
+
+
+def _large_chunk(params, lo, hi):
+    from solvor.flow import max_flow
+
+    nets = large_networks()
+    r = new_result()
+    for idx in range(lo, hi):
+        name, n, arcs, s, t, val = nets[idx // 2]
+        order = idx % 2
+        g = build(n, arcs, order, False)
+        wit = {"large": name, "order": order}
+        res, err = guarded_run(lambda: max_flow(g, s, t), 20.0, 200_000_000)
+        r["n"] += 1
+        r["nontrivial"] += 1
+        if err:
+            r["violations"].append(viol("max_flow", err.split()[0].rstrip(":"), wit, f"max_flow on {name} (order {order}): {err}"))
+            continue
+        r["outcomes"]["large:" + ("ok" if res.objective == val else "wrong")] += 1
+        cap = {}
+        for u, v, w in arcs:
+            cap[(u, v)] = cap.get((u, v), 0) + w
+        net = [0] * n
+        bad = None
+        for (u, v), f in res.solution.items():
+            if f < 0 or f > cap.get((u, v), 0):
+                bad = f"flow {f} on arc {(u, v)} with capacity {cap.get((u, v), 0)}"
+            net[u] -= f
+            net[v] += f
+        if bad is None and any(net[x] != 0 for x in range(n) if x not in (s, t)):
+            bad = "flow is not conserved at an interior node"
+        if bad is None and net[t] != res.objective:
+            bad = f"objective {res.objective} but net inflow of the sink is {net[t]}"
+        if bad:
+            r["violations"].append(viol("max_flow", "capacity", wit, f"max_flow on {name} (order {order}): {bad}"))
+        elif res.objective != val:
+            r["violations"].append(viol("max_flow", "not_maximum", wit, f"max_flow on {name} (order {order}): objective {res.objective}, the maximum flow is {val}"))
+        if not r["samples"]:
+            r["samples"].append(wit)
+    return r
+
+
 def _unit8_block(params, lo, hi):
     return _unit_chunk((6, 8, (0,)), params + lo, params + hi)
 
@@ -331,6 +396,11 @@ def _unit8_block(params, lo, hi):
 def replay(v):
     w = v["witness"]
     r = new_result()
+    if w.get("large"):
+        names = [x[0] for x in large_networks()]
+        i = names.index(w["large"]) * 2 + w["order"]
+        rr = _large_chunk(None, i, i + 1)
+        return rr["violations"][0] if rr["violations"] else None
     labels = w.get("labels")
     if labels:
         def tup(x):
